@@ -61,7 +61,9 @@ uint64_t io_calls() { return g_io; }
 void io_budget(uint64_t n) { g_budget = n; g_io = 0; g_exceeded = false; }
 bool budget_exceeded() { return g_exceeded; }
 int open_fds() { int n = 0; for (auto & d : g_fds) if (d.used) ++n; return n; }
+uint64_t g_cap_hits = 0;
 void size_cap(uint64_t b) { g_cap = b; }
+uint64_t cap_hits() { return g_cap_hits; }
 
 static bool tick(int kind) {
     if (io_hook) io_hook(kind);
@@ -135,7 +137,7 @@ extern "C" ssize_t vfs_write(int fd, const void * buf, size_t count) {
     if (!d) { errno = EBADF; return -1; }
     if ((d->flags & O_ACCMODE) == O_RDONLY) { errno = EBADF; return -1; }
     auto & data = d->f->data;
-    if ((uint64_t) d->pos + count > g_cap) { errno = ENOSPC; return -1; }
+    if ((uint64_t) d->pos + count > g_cap) { ++g_cap_hits; errno = ENOSPC; return -1; }
     int64_t before = (int64_t) data.size();
     if ((size_t) d->pos + count > data.size()) data.resize((size_t) d->pos + count, 0);
     memcpy(data.data() + d->pos, buf, count);
